@@ -187,3 +187,13 @@ Section ClosedReader.
     cbn [map proto_run]. rewrite (closed_ignores_input evs p C). f_equal. apply IH. exact C.
   Qed.
 End ClosedReader.
+
+(* handle(Closed): whenever it returns normally the reader has been released (can_read is set) *)
+Lemma handle_closed_releases p :
+  let '(p', o, r) := handle_closed p in r = Ok tt -> p_can_read p' = true.
+Proof.
+  unfold handle_closed, bind, modify, get, note, emit. cbn beta iota.
+  destruct (p_stream_live (set_closed true p)).
+  - destruct (close_stream (set_closed true p)) as [[p2 o2] [u|e]]; cbn; [reflexivity|discriminate].
+  - cbn. reflexivity.
+Qed.
